@@ -115,7 +115,9 @@ func cmpTx(o *cmpOut, mt *m.Tx, a *ast.Transaction) {
 	}
 	if mt.HC != nil {
 		// blanks at the end of the line are not part of what the comment says
-		if len(a.Comments) < 1 || strings.TrimRight(a.Comments[0].Text, " \t") != strings.TrimRight(mt.HC.Body(), " \t") {
+		if len(a.Comments) < 1 && strings.TrimSpace(mt.HC.Body()) == "" {
+			// a comment mark with nothing behind it says nothing: it may or may not be kept as a comment
+		} else if len(a.Comments) < 1 || strings.TrimRight(a.Comments[0].Text, " \t") != strings.TrimRight(mt.HC.Body(), " \t") {
 			o.add("c03.header-comment.text", "header comment: parsed %v, written %q", a.Comments, mt.HC.Body())
 		} else {
 			cmpTags(o, "header-comment", mt.HC, a.Comments[0].Tags)
